@@ -68,6 +68,23 @@ def run(check: Check):
     check.ob('R-SIB.ext-pair', unpack, f'{name}: {p_helper} <-> {u_helper}', pair_ok and p_arity == u_arity and p_arity is not None,
              f'the unpacker must apply the inverse of the packer\'s helper; tuple arity written {p_arity} / read {u_arity}')
   check.floor('R-SIB.ext', 'extension types', len(members), 4)
+  # order of the type tests: NumPy scalar types subclass the Python ones (np.complex128 is a complex, np.float64 a float), so the
+  # np.generic arm has to be tried before the arm for native complex - otherwise such a scalar loses its dtype on the way
+  order = []
+  for n in pff.cfg.nodes:
+    if n.kind == 'if':
+      for c in ast.walk(n.ast.test):
+        if isinstance(c, ast.Call) and pff.ext(c.func) == 'builtins.isinstance' and len(c.args) == 2:
+          kinds = [pff.ext(t) or txt(t) for t in (c.args[1].elts if isinstance(c.args[1], ast.Tuple) else [c.args[1]])]
+          order.append((n.ast.lineno, kinds))
+  order.sort(key=lambda x: x[0])
+  pos = {}
+  for i, (_, kinds) in enumerate(order):
+    for k in kinds:
+      pos.setdefault(k, i)
+  if 'numpy.generic' in pos and 'builtins.complex' in pos:
+    check.ob('R-SIB.ext-order', pack, 'isinstance(x, np.generic) before isinstance(x, complex)', pos['numpy.generic'] < pos['builtins.complex'],
+             'NumPy scalars are recognised before native complex numbers (np.complex128 is an instance of complex)', exact=True)
   _ndarray(check)
   _bytes_ndarray(check)
   _flags(check)
@@ -194,6 +211,12 @@ def _ndarray(check: Check):
   dn = any(wmean.repo_fn(ff, c) == f'{SER}:_dtype_from_name' for _, c in ff.calls())
   check.ob('R-PAIR.layout', fr, 'np.frombuffer(buffer, dtype=_dtype_from_name(name)).reshape(shape)', fb and dn,
            'the reader reinterprets the raw bytes with the dtype named by the writer')
+  # the reader decodes the descriptor by *name* (so that bfloat16 and the other extension types resolve through jax): the writer
+  # must write dtype.name - dtype.str of an extension type is a void code ('<V2') that names nothing
+  if dn:
+    check.ob('R-PAIR.descriptor', to, f'dtype descriptor {desc}', True if desc.endswith('.dtype.name') else (
+        False if desc.endswith(('.dtype.str', '.dtype.descr', '.dtype.char', '.dtype.kind')) else None),
+             'the writer records the dtype the way the reader looks it up (_dtype_from_name): by dtype.name', node=dtype_e)
   # structured / object dtypes rejected
   rej = any(isinstance(n.ast, ast.Raise) for n in tf.cfg.nodes if n.kind == 'stmt')
   check.ob('R-PAIR.flags', to, 'hasobject / isalignedstruct -> ValueError', rej, 'unsupported dtypes are rejected, not altered')
